@@ -120,6 +120,46 @@ def h_sequence(env, n1=2, n2=3, via="emmotl", shrink=True):
         m.remove_feature("tomo_id", 1)
         m.write_out(path)                       # ... written back through its own writer after it shrank
         check_file("loaded_shrunk_rewritten", vb[1:])
+        # a missing value that enters AFTER construction (edited table, copy of another list) is written as 0 as well
+        m2 = cm.EmMotl(dfb2.copy())
+        m2.df.loc[m2.df.index[1], "score"] = np.nan
+        m2.df["geom5"] = np.nan
+        m3 = cm.EmMotl(m2)
+        m3.write_out(path)
+        vz = [dict(r) for r in vb]
+        vz[1]["score"] = 0.0
+        for r in vz:
+            r["geom5"] = 0.0
+        check_file("holes_made_after_construction", vz)
+
+
+def h_extremes(env, via="emmotl"):
+    """finite values at the ends of the float32 range (largest finite float32, a float64 that rounds to it, the smallest normal
+    and a subnormal): concrete cells, written and loaded through the real path; cells around them stay symbolic"""
+    cm = env.module("cryomotl")
+    f32max = float(np.finfo(np.float32).max)
+    ext = [f32max, -f32max, 3.4028234e38, 1.17549435e-38, 1e-45, -2.5e38]
+    n = 2
+    vals = [{c: env.real("v%d_%s" % (i, c), -1e6, 1e6) for c in COLS} for i in range(n)]
+    k = 0
+    for i in range(n):
+        for c in ("score", "geom1", "x"):
+            vals[i][c] = ext[k % len(ext)]
+            k += 1
+    if env.mode == "sym":
+        df = pd.DataFrame({c: objcol([r[c] for r in vals]) for c in COLS}, columns=COLS)
+    else:
+        df = pd.DataFrame({c: np.array([float(r[c]) for r in vals]) for c in COLS}, columns=COLS)
+    path = env.path("ext.em")
+    (cm.EmMotl(df).write_out(path)) if via == "emmotl" else cm.Motl(df).write_out(path, "emmotl")
+    fmt, dtype, dims, get = env.file_view(path)
+    env.check("file_is_float32", env.true() if dtype == "float32" else _false(env))
+    back = cm.Motl.load(path).df
+    env.check("loaded_shape", env.true() if back.shape == (n, 20) else _false(env))
+    if back.shape == (n, 20):
+        for i in range(n):
+            for c in COLS:
+                env.check("loaded_cell_%d_%s" % (i, c), env.eq(back[c].iloc[i], _f32(env, vals[i][c])))
 
 
 def orders(tier, seed):
@@ -149,6 +189,8 @@ def jobs(tier, seed):
     j.append(("h_roundtrip", {"n": 2, "order": list(reversed(range(20))), "via": "motl", "holes": [[0, c] for c in range(20)], "index": "gaps"}))
     j.append(("h_roundtrip", {"n": 1, "order": list(range(20)), "via": "emmotl", "wide": True}))
     j.append(("h_roundtrip", {"n": 2, "order": list(range(3, 20)) + [0, 1, 2], "via": "motl", "wide": True}))
+    j.append(("h_extremes", {"via": "emmotl"}))
+    j.append(("h_extremes", {"via": "motl"}))
     j.append(("h_sequence", {"n1": 2, "n2": 3, "via": "emmotl"}))
     j.append(("h_sequence", {"n1": 3, "n2": 1, "via": "motl", "shrink": False}))
     return j
